@@ -6,16 +6,9 @@ from props import _fetch
 
 LEVEL = "proof"
 MODULE = "Phil.Props.C07"
-LEVEL_TEXT = ("Lean theorems about the merge model: for masters without a .multiple object nested in a .multiple scope, fetching "
-              "a fetch result again, or with the master itself as an extra first source, reproduces the result (partial: the "
-              "hypothesis and the canonical-rendering law are named in the theorem statements); a kernel-checked witness shows "
-              "that the former duplication for nested multiples with a non-canonical default (D8, repaired with D9) is gone: the "
-              "second fetch of that input has the same node listing as the first (refetch_fixed_point_nested). The model is tied to /repo by a "
-              "correspondence run on fetch chains; the oracle evaluates every equality of the statement on the implementation "
-              "(re-fetch as object, re-fetch from printed text, master as extra source, no source vs master as source; 1-3 cycles).")
-LEVEL_NOTE = ("closed-form idempotence is proved for flat masters (C05Multi.refetch_idempotent); for nested masters the statement "
-              "rests on the stated hypotheses plus the correspondence. D8 (nested multiples) is fixed in /repo (bcaa855).")
-TECHNIQUE = "Lean 4 idempotence theorems (closed form on flat masters, conditional on nested ones) + differential correspondence + equality oracle on fetch chains"
+LEVEL_TEXT = 'Lean theorems about the merge model: re-fetching a fetch result gives the result, and the master as an extra source changes nothing — closed on flat masters (refetch_idempotent), nested masters (tree_refetch_idempotent), with .multiple definitions (tree_multi_refetch_idempotent) and with .multiple scopes nested to any depth (ms_refetch_idempotent, fetchRoot_ms_idempotent, master_as_source, ms_fetch_master_itself), with no canonical-rendering hypothesis. Tied to /repo by a correspondence run on fetch chains; the oracle evaluates every equality of the statement on the implementation (re-fetch as object, re-fetch from printed text also with annotations, master as extra source, no source vs master as source; 1-3 cycles; values with lexical escapes).'
+LEVEL_NOTE = 'Closed form for masters with one occurrence per name, variable-free; masters with $variables in defaults and single-alternative unstarred choices are known edges (see DESIGN §7).'
+TECHNIQUE = 'Lean 4 idempotence theorems (closed form incl. .multiple scopes) + differential correspondence + equality oracle on fetch chains'
 RULE = ("masters (incl. multiples nested in multiple scopes, non-canonical defaults such as 'yes' for a bool or unquoted strings) x "
         "source lists x 1-3 fetch/print/parse cycles; non-trivial = the result differs from the bare master fetch")
 ASSUMPTIONS = ["equality = identical print at attributes_level=2 and equal extract() dumps"]
